@@ -69,10 +69,11 @@ CLAIMS = {
             "created_at is refused as deleted iff created_at <= T and stored otherwise, and the recorded time is unchanged.", DB_NOTE +
             "Not claimed: rebuild/reopen continuations; removal of covered events that are already stored (dereferences stored events).",
             "DESIGN.md 8.3 C11"),
-    "C12": ("Store level: a complete store_event that fails as deleted (marker on the id) makes no durable commit with an effective change - every "
-            "committed table of the environment model is what it was - leaves the event unretrievable, the marker in place and the statistics "
-            "unchanged.", DB_NOTE + "Not decided in quick: duplicate / replaced / invalid-delete causes (thorough harnesses exist and hit "
-            "their caps).", "DESIGN.md 8.3 C12"),
+    "C12": ("Store level: a complete store_event that fails as deleted (marker on the id; marker on the address) or as a duplicate (same id "
+            "already stored; arbitrary time, author byte and signature) makes no durable commit with an effective change - every committed "
+            "table of the environment model is what it was - and leaves lookups, markers and statistics unchanged.", DB_NOTE +
+            "Not decided: replaced (also with a pending pre-removal) and invalid-delete causes (thorough harnesses exist and hit their caps).",
+            "DESIGN.md 8.3 C12"),
     "C13": ("Crash point as a symbolic variable: one complete Store::store_event killed at any of its persistent effects (payload halves, end marker, "
             "LMDB commit, in program order) leaves either nothing or the complete event behind an id lookup - never an index entry without bytes; "
             "EventStore::new killed at any effect of creation reopens as an empty store with end marker 8; (thorough) a second "
@@ -81,6 +82,11 @@ CLAIMS = {
             "remove/vanish, OS page reordering.", "DESIGN.md 8.3 C13"),
     "C15": ("EventStore level: a reference taken before a store that enlarges the file keeps its bytes; its address is unchanged under a non-moving "
             "resize and changes under mremap(MAYMOVE) - the latter is a listed known finding.", DB_NOTE, "DESIGN.md 8.3 C15, 8.5"),
+    "C17": ("Lmdb level, one write transaction, event as a local image: after Lmdb::index the id/time/author/author-kind tables hold 1 entry and "
+            "the three tag tables equally many; after Lmdb::deindex + deindex_id every table is empty again - for a single tag [L ab] with an "
+            "ARBITRARY one-byte tag name L (either case, digits, any byte), and for the same indexable tag repeated twice.", DB_NOTE +
+            "Not decided: access-path agreement (find_events over stored events), the Store-level removal wrappers and statistics "
+            "(thorough harnesses, hit their caps), several events.", "DESIGN.md 8.3 C17"),
     "C18": ("Store level: an event whose kind is arbitrary in 20000..=30010 is stored by a complete store_event, retrievable iff not ephemeral, and "
             "carries no deletion marker; for every ephemeral kind 20000..=29999 and arbitrary time the statistics afterwards count 0 entries in "
             "every index table, so no lookup or query path can reach the event.", DB_NOTE + "Not decided: vanish; remove_event of a stored event "
@@ -102,19 +108,10 @@ CLAIMS = {
 NOT_APPLICABLE = {
     "C10": "Every scenario that decides it must run Store::handle_deletion_event over the request's tags and, for e targets, dereference "
            "the stored victim. Measured with Kani/CBMC: the a-tag phase alone and the whole store_event around it do not finish in 700 s, "
-           "the by-id scenarios exceed 20 GB, Addr::try_from_bytes with two arbitrary hex digits needs more than 750 s (values read through "
-           "event.tags()? / get_event_by_id(..)? are opaque to the symbolic executor, DESIGN.md 8.2). The address-parser kernel that remains "
+           "the by-id scenarios exceed 20 GB (Store::get_event_by_id is not evaluable by CBMC's symbolic executor even on a concrete store, "
+           "after which both sides of every branch are executed; measured with fold probes, DESIGN.md 8.2), and Addr::try_from_bytes with two "
+           "arbitrary hex digits needs more than 750 s. The address-parser kernel that remains "
            "(decided under C03) does not settle the property. Harnesses are kept in harness/c10_store.rs (./check C10 --tier thorough); nothing is claimed.",
-    "C17": "Lmdb::index/deindex walk event.tags()?; everything read through that reference is opaque to the symbolic executor "
-           "(DESIGN.md 8.2): the one-transaction index/deindex mirror on a local event image with a single tag and one arbitrary byte does "
-           "not finish in 700 s, the Store-level forms (store_event + remove_event + stats) not in 750 s; access-path agreement needs "
-           "find_events over stored events. Harnesses are kept in harness/c17_*.rs (./check C17 --tier thorough); nothing is claimed.",
-    "C08": "Verification = canonical text -> SHA-256 -> libsecp256k1 (C code behind FFI): neither the hash of a symbolic-length string nor the "
-           "signature check can be encoded; the canonical-text kernels that remain are decided under C02/C03 and would not settle 'accepts exactly'.",
-    "C14": "Concurrency: Kani/CBMC do not model Rust threads; the isolation relied on is LMDB's writer lock/MVCC (C code behind FFI) "
-           "and locks inside mmap-append. Under any sequential environment model the property is trivially true of the model, not of pocket (DESIGN.md section 5).",
-    "C16": "Rebuild renames directories, checks file ownership and re-indexes through two LMDB environments - beyond the environment model and the "
-           "memory budget; the marker-dump round trip that remains is reported under C11; reopen of the event file is part of C04/C13.",
 }
 
 PENDING = "check not built yet in this revision of /verif (work in progress; see DESIGN.md section 4 for the plan)"
